@@ -42,11 +42,11 @@ CHECKS.update({
     "C02": dict(cat="proof", ref="DESIGN.md §4 C02",
         text="On the operator assembled by the REAL code (matrix denoted by the arrays handed to the sparse solver) z3 proves for all positive geometry/capacitance/membrane terms and all dt>0, per enumerated "
              "structure: weighted column sums carry no axial term (charge conservation, with explicit branch-point multipliers), diag(D,mu)M symmetric (reciprocity, symmetric inverse cited), row sums 1+dt*a / 0 "
-             "(uniform stays uniform), M-matrix signs plus a generic discrete-maximum-principle row lemma (no overshoot), and the stimulus charge identity I*dt through the real _get_external_input.",
+             "(uniform stays uniform), M-matrix signs plus a generic discrete-maximum-principle row lemma (no overshoot), and the stimulus charge identity I*dt through the real _get_external_input. Synaptic charge: the contracts of the real Network._synapse_currents / Module.step (every compartment receives exactly the currents of the synapses listed onto it, converted with its area and divided once by its symbolic capacitance; exact linearisation in v_post) on two wirings with all synapse types.",
         technique=T_SYM + " (QF_NRA) per static structure; structures bounded-exhaustive"),
     "C05": dict(cat="proof", ref="DESIGN.md §4 C05",
         text="Proof of the SIDE CONDITIONS under which jax.grad is the derivative, not of gradient agreement itself: strict definedness of every kernel on the differentiable path (both branches of every where), "
-             "routing of trainables through the real get_all_parameters/get_all_states (indices in range, groups disjoint, every unique_indices/indices_are_sorted promise true), no select taken on a null set (a where whose condition is an equality between traced reals) with a derivative different from the surrounding branch (symbolic differentiation of the terms of the real kernels and of the real Module.step), and an AST scan for derivative-cutting constructs. "
+             "routing of trainables through the real get_all_parameters/get_all_states (indices in range, groups disjoint, every unique_indices/indices_are_sorted promise true), no select taken on a null set (a where whose condition is an equality between traced reals) with a derivative different from the surrounding branch (symbolic differentiation of the terms of the real kernels and of the real Module.step), an AST scan for derivative-cutting constructs, and for every jax.custom_jvp on the path the obligation that its rule equals the symbolic derivative of its primal. "
              "JAX's AD is assumed correct; finite-difference agreement is not checked.",
         technique=T_SYM + "; AST transparency scan", note="Claims the side conditions only; JAX AD/scan/checkpoint/vmap assumed correct. " + BASE_NOTE),
     "C06": dict(cat="proof", ref="DESIGN.md §4 C06",
@@ -66,7 +66,7 @@ CHECKS.update({
         technique=T_SYM + " per wiring; wirings enumerated"),
     "C10": dict(cat="proof", ref="DESIGN.md §4 C10",
         text="data_set and make_trainable+params are pushed through the real get_all_parameters/get_all_states with symbolic values: the arrays carry X exactly on the denoted rows (oracle from construction numbers) and the table symbol elsewhere, NaN cells stay absent, scatter indices in range; "
-             "set() and write_trainables are compared by exact native table diffs (bounded).",
+             "set() and write_trainables are compared by exact native table diffs (bounded). That the simulation depends on parameter and state values only through those arrays is a frame / dependency contract on the real Module.step: called with fresh symbols in params / states, no table symbol occurs in its outputs or in the solver's arguments.",
         technique=T_SYM + " (structural term equality) + bounded native table diffs for set/write_trainables"),
     "C12": dict(cat="proof", ref="DESIGN.md §4 C12",
         text="Assembly table contracts evaluated on a heterogeneous family (bounded); with symbolic tables the membrane terms, mechanism updates and axial conductances of every cell inside a synapse-free network are proved identical to the cell alone (rows renamed), likewise one-branch cell = branch and one-compartment branch = compartment; "
@@ -74,7 +74,7 @@ CHECKS.update({
         technique=T_SYM + " (AC-normalised term equality, z3 fallback); C01 chain on networks; bounded table contracts"),
     "C15": dict(cat="proof", ref="DESIGN.md §4 C15",
         text="One-step consistency with exact constants for all real parameter values: uniform-cable coupling = centred second difference of (d/4Ra) d2V/dx2 / c_m with um, ohm cm, uF/cm2 converted exactly; sealed ends; single-compartment bwd_euler / crank_nicolson / fwd_euler updates of the real Module.step against tau = cm/(1000 g), R I = 100 I/(2 pi r l g); fixed point E + I/(gA); a cable split over two branches is proved to be the same cable (branch-point elimination lemma) and every back end returns the solution of the physical system also for a cable inside a network of cells with different depth (C01 chain on those structures). "
-             "Convergence orders follow by cited theorems; the limit itself is not mechanised.",
+             "The real integrate is proved (uninterpreted-step engine) to take every step with exactly the caller's delta_t for time steps off the 1e-4 grid. Convergence orders follow by cited theorems; the limit itself is not mechanised.",
         technique=T_SYM + " (QF_NRA identities with unit factors)"),
 })
 T_B = "bounded evaluation of sidecar contracts on the real (pandas-bound) code against an independent oracle"
@@ -83,10 +83,10 @@ B_NOTE = ("Exploration level: the contracts are EVALUATED on a bounded family, n
 CHECKS.update({
     "C11": dict(cat="exploration", ref="DESIGN.md §4 C11", note=B_NOTE,
         text="View contracts (selected compartments = denotation of the chain, synapses among them, dense local indices, [] and iteration = method form, mutations confined to the view's rows) evaluated against an independent denotation oracle "
-             "on an irregular 3-cell network for all chains of depth 1-3 over 13 index forms in local scope, global scope and with a scope switch; the loc digitisation is proved for all at in [0,1] (z3).",
+             "on an irregular 3-cell network for all chains of depth 1-3 over 13 index forms in local scope, global scope and with a scope switch, and for chains mixing synapse steps (type view, global edge(i), select(edges=)) with compartment steps in both orders; the loc digitisation is proved for all at in [0,1] (z3).",
         technique=T_B + "; z3 lemma for loc"),
     "C13": dict(cat="exploration", ref="DESIGN.md §4 C13", note=B_NOTE,
-        text="set_ncomp contract evaluated against modules built directly with n compartments (hand-built 5-branch cell with distinct per-branch properties, all branches x n, two-call sequences; SWC files against read_swc(ncomp=n)): tables, other branches, connectivity, group membership, solver structures equal; native one-step comparison on all backends.",
+        text="set_ncomp contract evaluated against modules built directly with n compartments (hand-built 5-branch cell with distinct per-branch properties, all branches x n, two-call sequences; SWC files against read_swc(ncomp=n), also with min_radius): tables, other branches, connectivity, group membership, solver structures equal; native one-step comparison on all backends.",
         technique=T_B),
     "C16": dict(cat="exploration", ref="DESIGN.md §4 C16", note=B_NOTE,
         text="read_swc contract evaluated against an independent SWC oracle (sections, parent-child connectivity, path lengths under the documented conventions, radius interpolation at compartment centres, type groups, ncomp-independence) on generated files with single- and multi-point somata and binary neurite trees, plus the repository's SWC files; _split_branch_equally bounded-exhaustively.",
